@@ -160,6 +160,8 @@ struct Run<'a> {
     noise_on: bool,
     last_state: KeyState,
     panic_mark: usize,
+    /// hook events taken early (by the end-to-end admission check) and still to be absorbed
+    pending_events: Vec<rt::Rec>,
 }
 
 fn has(props: &[&'static str], p: &str) -> bool { props.iter().any(|x| *x == p) }
@@ -349,7 +351,8 @@ impl<'a> Run<'a> {
 
     /// Consumes hook events since the last step: learns evictions (pressure) and sweeps, checks sweep safety.
     fn absorb_events(&mut self) {
-        let events = recorder().take_events();
+        let mut events = std::mem::take(&mut self.pending_events);
+        events.extend(recorder().take_events());
         for rec in events {
             match rec.event {
                 Event::AdmissionStep { evicted: true, victim: Some((victim_id, _, _)), .. } => {
@@ -581,6 +584,45 @@ impl<'a> Run<'a> {
 
     // ------------------------------------------------------------------------------------ write execution
 
+    /// Quiesces the access pipeline and reads, through the accessors only, what the admission decision will be based on.
+    fn observe_before_admission(&mut self, op: &WriteOp) -> Option<crate::admission::Decision> {
+        if let Err(waited) = self.sut.quiesce() { self.stuck("quiescence before an admission decision", waited); return None; }
+        self.pending_events.extend(recorder().take_events());
+        let snapshot = self.sut.snapshot();
+        let charged = snapshot.charged.iter().map(|(id, key, hash, weight)| crate::admission::Charged { id: *id, key: *key, weight: *weight, estimate: self.sut.cache.verif_estimate_hash(*hash) }).collect();
+        Some(crate::admission::Decision { max_weight: snapshot.max_weight, used_before: snapshot.weight_used, weight: self.op_weight(op),
+            incoming_estimate: self.sut.cache.verif_estimate(&op.key()), charged })
+    }
+
+    fn judge_admission(&mut self, op: &WriteOp, decision: &crate::admission::Decision, status: CommandStatus) {
+        let events = recorder().take_events();
+        let verdict = {
+            let steps: Vec<&Event> = events.iter().map(|r| &r.event).filter(|e| matches!(e, Event::AdmissionStep { .. })).collect();
+            crate::admission::judge(decision, &steps, status)
+        };
+        self.pending_events.extend(events);
+        self.counts.inc(format!("end_to_end_decisions:{}", verdict.class));
+        if verdict.tie { self.counts.inc("end_to_end_decisions_with_a_tie"); }
+        if decision.incoming_estimate > 0 { self.counts.inc("end_to_end_decisions_with_a_warm_incoming_key"); }
+        if decision.charged.iter().any(|c| c.estimate > 0) { self.counts.inc("end_to_end_decisions_with_warm_residents"); }
+        if let Some((signature, detail)) = verdict.problems.first() {
+            self.fail(&["C06"], format!("C06/{}/end-to-end", signature), format!("{} of key {} (weight {}, estimate {}): {}", op.shape(), op.key(), decision.weight, decision.incoming_estimate, detail));
+            return;
+        }
+        let used_after = self.sut.cache.total_weight_used();
+        if used_after != verdict.expected_used_after {
+            self.fail(&["C06", "C05"], "C06/total-wrong-after-decision/end-to-end".into(), format!("total is {} but {} was expected (evicted ids {:?}, status {})", used_after, verdict.expected_used_after, verdict.evicted, status_name(&status)));
+            return;
+        }
+        for key in &verdict.evicted_keys {
+            if self.sut.cache.verif_snapshot().stored.iter().any(|e| e.0 == *key && verdict.evicted.contains(&e.1)) {
+                self.fail(&["C06", "C05"], "C06/victim-still-stored/end-to-end".into(), format!("victim key {} is still stored", key));
+                return;
+            }
+        }
+        self.crit(&format!("end-to-end-decision:{}", verdict.class));
+    }
+
     fn op_weight(&self, op: &WriteOp) -> i64 {
         let mode = self.cfg.sut.weight_mode;
         match op {
@@ -644,9 +686,14 @@ impl<'a> Run<'a> {
         self.last_state = state;
         self.counts.inc(format!("op:{}:{}", op.shape(), state.name()));
         self.sig = fnv_step(self.sig, crate::util::fnv(format!("{}:{}", op.shape(), state.name()).as_bytes()));
+        let readable = matches!(state, KeyState::Live | KeyState::LiveTtl);
+        // end-to-end admission check (C06): observe the charged keys and their estimates through the accessor before the put
+        let goes_to_admission = self.cfg.focus == "C06" && !readable && state != KeyState::ExpiredUnswept && !matches!(op, WriteOp::Delete { .. }) && op.value().is_some();
+        let decision = if goes_to_admission { self.observe_before_admission(op) } else { None };
+        if self.stop { return; }
         let issued = issue(&self.sut.cache, op);
         let status = match self.wait(issued, op, state) { Some(status) => status, None => return };
-        let readable = matches!(state, KeyState::Live | KeyState::LiveTtl);
+        if let Some(decision) = decision { self.judge_admission(op, &decision, status); if self.stop { return; } }
         match op {
             WriteOp::Put { .. } | WriteOp::PutW { .. } | WriteOp::PutTtl { .. } | WriteOp::PutWTtl { .. } => {
                 if readable {
@@ -1151,7 +1198,7 @@ pub fn run_history(cfg: &SeqCfg) -> SeqOut {
     let mut run = Run {
         cfg, sut, model: BTreeMap::new(), rng: rt::rng_for(cfg.seed, cfg.index, 0x5EC), findings: Vec::new(), counts: Counts::default(),
         critical: BTreeSet::new(), history: Vec::new(), sig: 0xcbf2_9ce4_8422_2325, lookups: 0, admission_rejects: 0, token_counter: 0,
-        read_rotation: cfg.index as usize, stop: false, dead_ids: BTreeSet::new(), evictions_seen: 0, noise_on: cfg.noise_threads > 0, last_state: KeyState::Absent, panic_mark: rt::panic_count(),
+        read_rotation: cfg.index as usize, stop: false, dead_ids: BTreeSet::new(), evictions_seen: 0, noise_on: cfg.noise_threads > 0, last_state: KeyState::Absent, panic_mark: rt::panic_count(), pending_events: Vec::new(),
     };
     let stop_noise = Arc::new(AtomicBool::new(false));
     let mut noise_handles = Vec::new();
